@@ -233,6 +233,38 @@ fn hash_checks<T: PartialOrd + Clone + Debug + Hash>(c: &Chain<T>, built: &[Buil
     s.count(&format!("distinct-hashes[{}]", c.name), distinct.len() as u64);
 }
 
+/// "copies compare equal": every way of copying - clone, clone_from onto a destination of
+/// every kind, Vec::clone_from / clone_from_slice - must yield a value equal to the source
+/// and of the same kind (same Debug rendering)
+fn copy_checks<T: PartialOrd + Clone + Debug>(c: &Chain<T>, built: &[Built<T>], s: &mut Sink) {
+    for src in built {
+        for dst in built {
+            s.evals += 1;
+            s.calls += 1;
+            let mut d = dst.iv.clone();
+            d.clone_from(&src.iv);
+            s.outcome(&("clone_from", src.lo.is_some(), src.hi.is_some(), dst.lo.is_some(), dst.hi.is_some()));
+            if d != src.iv || format!("{d:?}") != format!("{:?}", src.iv) {
+                s.violation("clone_from-differs-from-source", format!("{:?}.clone_from({:?}) gives {d:?}", dst.iv, src.iv), json!({"type":c.name,"check":"clone_from","src":[src.lo,src.hi],"dst":[dst.lo,dst.hi]}));
+            }
+        }
+    }
+    // containers: the slice / Vec forms call clone_from element-wise
+    let srcs: Vec<Interval<T>> = built.iter().map(|b| b.iv.clone()).collect();
+    let mut rot = srcs.clone();
+    rot.rotate_left(srcs.len() / 3 + 1);
+    let mut v1 = rot.clone();
+    v1.clone_from(&srcs);
+    let mut v2 = rot.clone();
+    v2.clone_from_slice(&srcs);
+    s.calls += 2;
+    for (name, v) in [("Vec::clone_from", &v1), ("clone_from_slice", &v2)] {
+        if let Some(i) = (0..srcs.len()).find(|&i| v[i] != srcs[i] || format!("{:?}", v[i]) != format!("{:?}", srcs[i])) {
+            s.violation(format!("{name}-differs-from-source"), format!("element {i}: {:?} copied over {:?} gives {:?}", srcs[i], rot[i], v[i]), json!({"type":c.name,"check":"clone_from","i":i}));
+        }
+    }
+}
+
 macro_rules! int_checks {
     ($name:ident, $t:ty, $low:ident, $high:ident) => {
         fn $name(c: &Chain<$t>, built: &[Built<$t>], s: &mut Sink) {
@@ -333,6 +365,7 @@ fn run_type(ty: &str, n: usize, s: &mut Sink) {
             let c = conv(&$base, stringify!($t), |&x| x as $t);
             let b = enumerate(&c, s);
             hash_checks(&c, &b, s);
+            copy_checks(&c, &b, s);
             $f(&c, &b, s);
         }};
     }
@@ -352,27 +385,32 @@ fn run_type(ty: &str, n: usize, s: &mut Sink) {
         "f64" => {
             let c = chain_f64(n);
             let b = enumerate(&c, s);
+            copy_checks(&c, &b, s);
             floats_f64(&c, &b, s);
         }
         "f32" => {
             let c = chain_f32(n);
             let b = enumerate(&c, s);
+            copy_checks(&c, &b, s);
             floats_f32(&c, &b, s);
         }
         "char" => {
             let c = chain_char(n);
             let b = enumerate(&c, s);
             hash_checks(&c, &b, s);
+            copy_checks(&c, &b, s);
         }
         "&str" => {
             let c = chain_str(n);
             let b = enumerate(&c, s);
             hash_checks(&c, &b, s);
+            copy_checks(&c, &b, s);
         }
         "String" => {
             let c = chain_string(n);
             let b = enumerate(&c, s);
             hash_checks(&c, &b, s);
+            copy_checks(&c, &b, s);
         }
         _ => eprintln!("unknown type {ty}"),
     }
@@ -402,7 +440,7 @@ fn main() {
     s.sample(json!({"type":"f64","path":"New","lo":"-0.0","hi":"+0.0","expect":"Ok, degenerate, width 0, equal to [+0.0,-0.0]"}));
     s.sample(json!({"type":"u8","path":"NewLower","hi":3,"expect":"low_u()=0, into (u8,u8) = (0, 60), width None"}));
     s.sample(json!({"type":"String","path":"OptNoneNone","expect":"Err(EmptyInterval)"}));
-    rep.rule = "every ordered pair of chain values (all positions of a 9-chain incl. extremes: ordered, equal, inverted) x 4 two-sided construction paths + every value x 3+3 one-sided paths + (None,None), then every accessor/predicate/conversion on every constructed interval and the full equality/hash table, for 12 integer types, f64/f32 (+-0 pair, subnormal, infinities), char, &str, String; distinct by (path, kind predicates, degenerate)".into();
+    rep.rule = "every ordered pair of chain values (all positions of a 9-chain incl. extremes: ordered, equal, inverted) x 4 two-sided construction paths + every value x 3+3 one-sided paths + (None,None), then every accessor/predicate/conversion on every constructed interval, the full equality/hash table and clone_from over all ordered (source, destination) pairs plus the Vec / slice forms, for 12 integer types, f64/f32 (+-0 pair, subnormal, infinities), char, &str, String; distinct by (path, kind predicates, degenerate)".into();
     rep.assume("NaN bounds are outside the property's quantifier");
     rep.assume("equal intervals must hash equally; distinct hashes for distinct kinds are counted but not demanded");
     rep.require(s.distinct() >= 12, "fewer than 12 distinct construction classes: vacuous");
